@@ -597,3 +597,107 @@ class MinimalDSeparator(Contract):
 
 
 register(MinimalDSeparator())
+
+
+# --------------------------------------------------------------------------------------------------- get_independencies
+class GetIndependencies(Contract):
+    """DAG.get_independencies(latex=False): with  N' = nodes (minus latents unless include_latents), rest(s) = N' - {s} and
+    ATN(s, O) = the answer of active_trail_nodes(s, observed=O) (its contract: exactly the d-connected nodes),
+    the result lists exactly the assertions   s _|_ rest(s) - O - ATN(s, O) | O   for s in N', O a proper subset of rest(s),
+    whose middle set is non-empty.  The graph is not modified."""
+    file = "pgmpy/base/DAG.py"
+    qual = "DAG.get_independencies"
+
+    def variants(self, ex):
+        for il in (True, False):
+            yield f"include_latents={il}", {"self": new_graph("DAG", "g"), "latex": Scalar(z3.BoolVal(False)), "include_latents": Scalar(z3.BoolVal(il))}, {}
+
+    def pre(self, ex, st, args):
+        g = args["self"]
+        x = fresh("x", Atom)
+        return z3.And(wf_graph(g), z3.ForAll([x], z3.Implies(g.fields["latents"].mem[x], N_(g, x))))
+
+    def snapshot(self, ex, st, args):
+        return graph_snapshot(args["self"])
+
+    # ---- specification pieces
+    def pieces(self, ex, args, old):
+        from vf.pyvc.lib import IA, ia_fields
+        il = args["include_latents"].z
+        E, Nn, lat = old["@E"], old["@nodes"], old["latents"]
+        ATN = atn_fn(ex, E)
+        SS = set_sort(Atom)
+        Np = lambda s: z3.And(Nn[s], z3.Or(il, z3.Not(lat[s])))
+        rest = lambda s, x: z3.And(Np(x), x != s)
+        D = lambda s, O, x: z3.And(rest(s, x), z3.Not(O[x]), z3.Not(ATN(s, O, il)[x]))
+        if "@gi" not in old:
+            gi = z3.Function("listed_assertion", Atom, SS, IA)
+            old["@gi"] = gi
+            s, x, O = fresh("s", Atom), fresh("x", Atom), fresh("O", SS)
+            g1, g2, g3 = ia_fields(gi(s, O))
+            ex.axioms.append(z3.ForAll([s, O, x], z3.And(g1[x] == (x == s), g2[x] == D(s, O, x), g3[x] == O[x])))
+        return Np, rest, D, old["@gi"]
+
+    def sub(self, ex, st, rest, s, O):
+        """O is a proper subset of rest(s)  (sizes 0 .. |rest| - 1)"""
+        x = fresh("x", Atom)
+        return z3.And(z3.ForAll([x], z3.Implies(O[x], rest(s, x))), z3.Exists([x], z3.And(rest(s, x), z3.Not(O[x]))))
+
+    def good(self, ex, st, args, old, M):
+        """every listed assertion is one of the specified ones"""
+        from vf.pyvc.lib import IA
+        Np, rest, D, gi = self.pieces(ex, args, old)
+        SS = set_sort(Atom)
+        r, s, O, x = fresh("r", IA), fresh("s", Atom), fresh("O", SS), fresh("x", Atom)
+        return z3.ForAll([r], z3.Implies(M[r], z3.Exists([s, O], z3.And(Np(s), self.sub(ex, st, rest, s, O), z3.Exists([x], D(s, O, x)), r == gi(s, O)))))
+
+    def cov(self, ex, st, args, old, M, which):
+        """every specified assertion with (s, O) in `which` is listed"""
+        Np, rest, D, gi = self.pieces(ex, args, old)
+        SS = set_sort(Atom)
+        s, O, x = fresh("s", Atom), fresh("O", SS), fresh("x", Atom)
+        return z3.ForAll([s, O, x], z3.Implies(z3.And(Np(s), self.sub(ex, st, rest, s, O), which(s, O), D(s, O, x)), M[gi(s, O)]))
+
+    def post(self, ex, st, args, old, result):
+        from vf.pyvc.lib import IA
+        if not isinstance(result, Obj) or "independencies" not in result.fields:
+            return z3.BoolVal(False)
+        lst = result.fields["independencies"]
+        M = lst.mem if lst.mem is not None else empty_set(IA)
+        return {"only-d-separation-statements": self.good(ex, st, args, old, M),
+                "every-maximal-statement-listed": self.cov(ex, st, args, old, M, lambda s, O: z3.BoolVal(True)),
+                "frame": graph_unchanged(args["self"], old)}
+
+    # ---- invariants: loop 0 `for start in nodes`, loop 1 `for r in range(len(rest))`, loop 2 `for observed in combinations(rest, r)`
+    def _M(self, st):
+        from vf.pyvc.lib import IA
+        lst = st.env["independencies"].fields["independencies"]
+        return lst.mem if lst.mem is not None else empty_set(IA)
+
+    def _inv(self, ex, st, args, old, ghost, level):
+        M = self._M(st)
+        card = lambda O: ex.lib.card(ex, Coll("frozenset", Atom, O), st)
+        d0 = ghost["done"] if level == 0 else st.ghost["done0"]
+        parts = [self.good(ex, st, args, old, M), graph_unchanged(args["self"], old)]
+        if level == 0:
+            if isinstance(st.env.get("rest"), Coll) and st.env["rest"].mem is not None:
+                # ghost lemma at the end of an outer iteration: the sizes 0 .. |rest| - 1 cover every strict subset of rest
+                st.assume(ex.lib.card_strict_subset(ex, st.env["rest"].mem, Atom, st))
+            parts.append(self.cov(ex, st, args, old, M, lambda s, O: d0[s]))
+            return z3.And(*parts)
+        cur = z3_of(st.env["start"])
+        d1 = ghost["done"] if level == 1 else st.ghost["done1"]
+        if level == 1:
+            parts.append(self.cov(ex, st, args, old, M, lambda s, O: z3.Or(d0[s], z3.And(s == cur, d1[card(O)]))))
+            return z3.And(*parts)
+        r = z3_of(st.env["r"])
+        d2 = ghost["done"]
+        parts.append(self.cov(ex, st, args, old, M, lambda s, O: z3.Or(d0[s], z3.And(s == cur, z3.Or(d1[card(O)], z3.And(card(O) == r, d2[O]))))))
+        return z3.And(*parts)
+
+    invariants = property(lambda self: {0: lambda ex, st, a, o, g: self._inv(ex, st, a, o, g, 0),
+                                        1: lambda ex, st, a, o, g: self._inv(ex, st, a, o, g, 1),
+                                        2: lambda ex, st, a, o, g: self._inv(ex, st, a, o, g, 2)})
+
+
+register(GetIndependencies())
